@@ -17,7 +17,7 @@ from ..interp import Event, Path
 from ..loader import AnalysisError, ClassInfo, FuncInfo, Program
 from ..model import Model
 from ..report import Run
-from ..values import (Const, DictV, Ext, Inst, ListV, StrV, Sym, Term, TupleV, V)
+from ..values import (Const, DictV, Ext, Inst, ListV, SetV, StrV, Sym, Term, TupleV, V)
 from ..visits import make_visitor
 
 try:
@@ -100,6 +100,7 @@ def check(run: Run, prog: Program, model: Model, tier: str) -> None:
         "constant-folded and every character is tested against the category with the real `re` on the constant. "
         "That the composed string fully matches is not decided."
         " The opcode and category dispatchers are evaluated on every constant of the sre universe; a negated class excludes every alphabet letter of each range and its candidate set depends on every member.")
+    run.explanation += ' OPEN-SENTINEL: the comparands of the open-bound test are resolved in re._constants and must all equal MAXREPEAT (an opcode constant is a small int and a legal explicit bound). VALIDATOR-PATTERN: the validator raises the regex error iff re.search(props.pattern, value) is None; a searched pattern obtained by removing characters of the regex source is a violation, one built around the declared pattern is undecided.'
     run.rule_text = ("one obligation per opcode / category of the universe, per handler child flow, per alphabet, per draw; "
                      "non-trivial = needed abstract evaluation of a handler or constant folding")
     run.trusted += ["sre parse-tree node shapes: SUBPATTERN(group, add, del, p), BRANCH(None, [p..]), MAX/MIN_REPEAT(min, max, p), "
@@ -202,6 +203,7 @@ def check(run: Run, prog: Program, model: Model, tier: str) -> None:
 
     # ---------------------------------------------------------------- CHILDREN + DRAW-ORDER (abstract evaluation)
     _children(run, prog, model, cls)
+    _validator_pattern(run, prog, model)
 
     # ---------------------------------------------------------------- ALPHABET
     _alphabets(run, prog, model, cls, cat_alpha)
@@ -246,7 +248,78 @@ def _run_handler(prog: Program, model: Model, cls: ClassInfo, name: str, mk: Any
     return it.run_paths(run, max_paths=600)
 
 
+
+def _validator_pattern(run: Run, prog: Program, model: Model) -> None:
+    """VALIDATOR-PATTERN: "schema.str.regex(p) generates strings its own validation accepts" needs the validator to
+    match the declared pattern itself: the regex error is raised exactly when re.search(props.pattern, value) is None.
+    A validator that searches for a rewritten pattern accepts a different language than the generator produces."""
+    from ..vtable import canonical, dedupe, extract
+    from ..visits import Config
+    for vis in ("Validator", "SubstitutorValidator"):
+        f = model.visitors[vis].lookup("visit_str")
+        rows, _ = extract(prog, model, vis, "visit_str", Config(("pattern",)), 1)
+        mine = [r for r in dedupe(rows) if r.error == "RegexValidationError"]
+        cs = {canonical(r.term, r.polarity) for r in mine}
+        want = ("SEARCH_NONE", "props.pattern", "value")
+        c = f"{vis}.visit_str: the declared pattern is what is matched"
+        if not mine:
+            run.violated("VALIDATOR-PATTERN", c, f.loc, "no RegexValidationError on any path: the pattern is not checked",
+                         witness="validate(schema.str.regex(p), <any str>) has no errors")
+        elif cs == {want}:
+            run.holds("VALIDATOR-PATTERN", c, mine[0].site, "RegexValidationError iff re.search(props.pattern, value) is None", nontrivial=True)
+        elif None in cs:
+            run.undecided("VALIDATOR-PATTERN", c, mine[0].site, f"predicate {mine[0].pred_key[:90]} not in canonical form")
+        else:
+            other = sorted(x for x in cs if x and x != want)
+            surgery = [x for x in other if any(m in x[1] for m in ("slice(", "replace", "strip", "removesuffix", "removeprefix", "split", "re.sub"))]
+            if not surgery:
+                # e.g. the pattern wrapped in a group plus an anchor: every full match of p still matches; not decided here
+                run.undecided("VALIDATOR-PATTERN", c, mine[0].site, f"the validator searches for {other[0][1][:70]}, built around the declared "
+                              "pattern; whether it still accepts every full match of the pattern is not decided")
+                continue
+            run.violated("VALIDATOR-PATTERN", c, mine[0].site, f"the validator also searches for {surgery[0][1][:70]}: characters of the regex "
+                         "source are removed by plain string operations, which cannot tell an escaped metacharacter from a real one",
+                         witness="a pattern the rewrite changes (e.g. one ending in an escaped `\\$`): fake(schema.str.regex(p)) "
+                                 "full-matches p and validate() reports RegexValidationError")
+    run.floor("VALIDATOR-PATTERN", 2)
+
 UNKNOWN = "__NO_SUCH_CODE__"
+
+
+def _open_tests(p: Path) -> List[str]:
+    """OPEN-SENTINEL: the parser writes every explicit upper bound as an int below MAXREPEAT and an open one as MAXREPEAT
+    itself, so a test that sends the node's maximum to the cap must be true for MAXREPEAT only.  A comparand that
+    denotes a smaller number (an opcode constant is a small named int) makes that explicit bound count as open:
+    the count may then exceed it."""
+    import re._constants as rc
+    out: List[str] = []
+    for ev in p.events:
+        if ev.kind != "cond" or not ev.data["value"]:
+            continue
+        t = ev.data["term"]
+        if not isinstance(t, Term) or t.op not in ("in", "eq", "is") or not any(a.key() == "max_count" for a in t.args):
+            continue
+        others = [a for a in t.args if a.key() != "max_count"]
+        cands: List[V] = []
+        for o in others:
+            if isinstance(o, (TupleV, ListV, SetV)) and o.concrete():
+                cands += list(o.items)
+            else:
+                cands.append(o)
+        for c in cands:
+            val: Any = None
+            if isinstance(c, Ext):
+                nm = c.name.rsplit(".", 1)[-1]
+                val = getattr(rc, nm, None)
+            elif isinstance(c, Const):
+                val = c.value
+            if isinstance(val, int) and not isinstance(val, bool):
+                if int(val) < int(rc.MAXREPEAT):
+                    out.append(f"an explicit upper bound equal to {c.key()} (= {int(val)}) is treated as open-ended: "
+                               f"the count may exceed it")
+            else:
+                out.append(f"open-bound test compares the maximum with {c.key()[:40]}, whose value is not known")
+    return out
 
 
 def _run_dispatch(prog: Program, model: Model, cls: ClassInfo, name: str, args: List[V]) -> List[Path]:
@@ -325,6 +398,7 @@ def _children(run: Run, prog: Program, model: Model, cls: ClassInfo) -> None:
         ps = _run_handler(prog, model, cls, name, lambda: TupleV([mn, mx, sub]))
         site = cls.methods[name].loc
         probs: List[str] = []
+        sentinel: Set[str] = set()
         nd = 0
         for p in ps:
             if p.outcome != "return":
@@ -342,6 +416,7 @@ def _children(run: Run, prog: Program, model: Model, cls: ClassInfo) -> None:
                 probs.append(f"lower bound of the count is {lo.key()[:40]}, not the node's minimum")
             open_branch = any(k.startswith("in(max_count") and b for k, _, b in p.facts) or any(
                 ev.kind == "cond" and "max_count" in ev.data["term"].key() and ev.data["value"] for ev in p.events)
+            sentinel |= set(_open_tests(p))
             if hi.key() == "max_count":
                 if open_branch:
                     probs.append("open-ended repeat draws up to MAXREPEAT itself")
@@ -357,6 +432,17 @@ def _children(run: Run, prog: Program, model: Model, cls: ClassInfo) -> None:
                 probs.append("the repeated sub-pattern does not flow into _generate_pattern")
             if not any("range" in c.data["iterable"].key() and draws[0].data.get("callee") for c in comps):
                 probs.append("the drawn count does not bound the repetition")
+        cs = f"{name[10:].upper()}: only the parser's open-bound sentinel is replaced by the cap"
+        if sentinel:
+            unknown = [x for x in sentinel if "not known" in x]
+            if len(unknown) == len(sentinel):
+                run.undecided("OPEN-SENTINEL", cs, site, "; ".join(sorted(sentinel)))
+            else:
+                run.violated("OPEN-SENTINEL", cs, site, "; ".join(sorted(x for x in sentinel if x not in unknown)),
+                             witness="RegexGenerator(Random(), max_repeat=100).generate('^a{3,N}$') with N the number named above "
+                                     "returns more than N characters, which the pattern does not match")
+        elif nd:
+            run.holds("OPEN-SENTINEL", cs, site, "every comparand of the open-bound test is MAXREPEAT", nontrivial=True)
         c = f"{name[10:].upper()}: count in [min, max(cap, min)] copies of component 2"
         if probs:
             run.violated("CHILDREN", c, site, "; ".join(sorted(set(probs))),
@@ -558,6 +644,16 @@ def _alphabets(run: Run, prog: Program, model: Model, cls: ClassInfo, cat_alpha:
 
 X = "d42/generation/_regex_generator.py"
 MUTANTS = [
+    {"name": "validator rewrites a trailing `$` of the pattern into \\Z by string surgery (seeded C09-J)", "rule": "VALIDATOR-PATTERN",
+     "edits": [("d42/validation/_validator.py", "            match_object = re.search(schema.props.pattern, value)", "            pattern = schema.props.pattern\n            if pattern.endswith(\"$\"):\n                pattern = pattern[:-1] + r\"\\Z\"\n            match_object = re.search(pattern, value)")]},
+    {"name": "neutral: validator searches through a compiled pattern object", "expect": "SILENT",
+     "edits": [("d42/validation/_validator.py", "            match_object = re.search(schema.props.pattern, value)", "            match_object = re.compile(schema.props.pattern).search(value)")]},
+    {"name": "open-bound test also compares with the MAX_REPEAT opcode (fix fb5f5e2 reverted)", "rule": "OPEN-SENTINEL",
+     "edits": [(X, "        if max_count == MAXREPEAT:", "        if max_count in (MAX_REPEAT, MAXREPEAT):")]},
+    {"name": "open-bound test compares with a literal small number", "rule": "OPEN-SENTINEL",
+     "edits": [(X, "        if max_count == MAXREPEAT:", "        if max_count == MAXREPEAT or max_count == 64:")]},
+    {"name": "neutral: open-bound test written with `in (MAXREPEAT,)`", "expect": "SILENT",
+     "edits": [(X, "        if max_count == MAXREPEAT:", "        if max_count in (MAXREPEAT,):")]},
     {"name": "negated class: per-letter test returns at the first range", "rule": "CHILDREN",
      "edits": [(X, "        letters = \"\".join(set(self._alphabet[\"letters\"]) - set(exclude_letters))",
                 "        first = value[0] if value else None\n        if first is not None and first[0] == RANGE:\n            exclude_letters = \"\".join(chr(x) for x in range(first[1][0], first[1][1] + 1))\n        letters = \"\".join(set(self._alphabet[\"letters\"]) - set(exclude_letters))")]},
